@@ -22,6 +22,10 @@ class Unreadable(Exception):
     pass
 
 
+# characters that end or start an operand in a formula: a name containing one has to be quoted to stay one operand
+BREAKERS = "+-*/^&=<>,;(){}\"#%×÷≥≤≠:"
+
+
 def named(table, axis):
     """label -> index for labels that name exactly one row/column of the table"""
     labels = table["row_labels"] if axis == "row" else table["col_labels"]
@@ -131,6 +135,10 @@ def resolve(text, config, host):
     if len(scopes) > 3:
         raise Unreadable(f"too many scopes in {text!r}")
     ref = scopes[-1]
+    for x in scopes[:-1]:
+        # a sheet or table name printed without quotes must not contain characters that end an operand of a formula
+        if not (len(x) >= 2 and x[0] == "'" and x[-1] == "'") and any(ch in x for ch in BREAKERS):
+            raise Unreadable(f"scope name {x!r} is printed without quotes although it contains an operator or separator")
     scopes = [x[1:-1].replace("''", "'") if len(x) >= 2 and x[0] == "'" and x[-1] == "'" else x for x in scopes[:-1]] + [ref]
     p = parse_ref(ref)
     is_label = p["kind"] in ("label", "label_range")
